@@ -13,6 +13,8 @@ import (
 	"context"
 	"fmt"
 	nurl "net/url"
+	"slices"
+	"sort"
 	"strconv"
 	"strings"
 	"sync"
@@ -46,6 +48,7 @@ type fetchPlan struct {
 	faults     map[int]fault // by request number
 	framing    string
 	chunks     []int
+	rounds     int // how many times maybeWebseed is called for the piece (each fetch must have ended before the next)
 }
 
 func (p *fetchPlan) String() string {
@@ -53,13 +56,19 @@ func (p *fetchPlan) String() string {
 	if p.hoffman {
 		kind = fmt.Sprintf("Hoffman(inclusive=%v)", p.hInclusive)
 	}
-	return fmt.Sprintf("%s seed, piece %d, pre-filled blocks %v, framing %s, faults %v\nlayout: %v", kind, p.index, p.pre, p.framing, p.faults, p.l)
+	return fmt.Sprintf("%s seed, piece %d, pre-filled blocks %v, framing %s, faults %v, %d round(s)\nlayout: %v", kind, p.index, p.pre, p.framing, p.faults, p.rounds, p.l)
 }
 
 func genFetchPlan(t *rapid.T) *fetchPlan {
 	p := &fetchPlan{faults: map[int]fault{}}
-	p.l = genLayout(t, layoutOpts{maxPieces: 4, grow: true, big: true})
+	p.l = genLayout(t, layoutOpts{maxPieces: 4, grow: true, big: true, huge: true})
 	l := p.l
+	p.rounds = 1
+	if l.huge {
+		p.rounds = rapid.IntRange(1, 7).Draw(t, "rounds")
+	} else if rapid.IntRange(0, 3).Draw(t, "again") == 0 {
+		p.rounds = rapid.IntRange(2, 3).Draw(t, "rounds")
+	}
 	p.hoffman = rapid.IntRange(0, 4).Draw(t, "hoffman") == 0
 	if p.hoffman {
 		p.hInclusive = rapid.IntRange(0, 3).Draw(t, "hInclusive") == 0
@@ -166,35 +175,6 @@ func fetchCase(t tb, p *fetchPlan) {
 	}
 	ws := tr.Webseeds()[0]
 
-	present := make([]bool, nb)
-	for _, b := range p.pre {
-		d := content[pieceStart+int64(b)*blk : pieceStart+int64(b)*blk+l.blockLen(index, b)]
-		if n, _, err := tr.Pieces.AddData(uint32(index), uint32(b*blk), d, 1); err != nil || int(n) != len(d) {
-			t.Fatalf("harness: pre-fill: %d %v", n, err)
-		}
-		present[b] = true
-	}
-	// the model's hole: first absent block, up to the next present one
-	first := -1
-	for b := 0; b < nb; b++ {
-		if !present[b] {
-			first = b
-			break
-		}
-	}
-	end := first
-	if first >= 0 {
-		for end = first + 1; end < nb && !present[end]; end++ {
-		}
-	}
-	var ho, hl int64
-	var want []mchunk
-	if first >= 0 {
-		ho = int64(first) * blk
-		hl = min(int64(end)*blk, pl) - ho
-		want = l.chunksOf(pieceStart+ho, hl)
-	}
-
 	// ---- the server: holds every file, misbehaves where the plan says
 	var srvNotes []string
 	var notesMu sync.Mutex
@@ -283,7 +263,6 @@ func fetchCase(t tb, p *fetchPlan) {
 		return ans
 	})
 
-	// ---- the call
 	ctx, cancel := context.WithCancel(context.Background())
 	defer cancel()
 	exited := make(chan string, 4)
@@ -293,190 +272,322 @@ func fetchCase(t tb, p *fetchPlan) {
 		}
 	}
 	defer func() { tor.VerifYieldHook = nil }()
-	started := tor.VerifMaybeWebseed(ctx, tr, uint32(index), p.idle)
+	blocksPerPiece := int(l.ps / blk)
+	for _, b := range p.pre {
+		d := content[pieceStart+int64(b)*blk : pieceStart+int64(b)*blk+l.blockLen(index, b)]
+		if n, _, err := tr.Pieces.AddData(uint32(index), uint32(b*blk), d, 1); err != nil || int(n) != len(d) {
+			t.Fatalf("harness: pre-fill: %d %v", n, err)
+		}
+	}
+
 	var hist []string
+	var ho, hl int64
+	var want []mchunk
 	fail := func(format string, a ...any) {
 		notesMu.Lock()
 		defer notesMu.Unlock()
-		t.Fatalf("C14(d) %s\nplan: %v\nhole (model): offset %d length %d = %d file runs\nhistory:\n  %s\nrequests seen: %v\nserver notes: %v",
+		t.Fatalf("C14(d) %s\nplan: %v\nrange of the last fetch (model): offset %d length %d = %d file runs\nhistory:\n  %s\nrequests seen: %v\nserver notes: %v",
 			fmt.Sprintf(format, a...), p, ho, hl, len(want), strings.Join(hist, "\n  "), srv.requests(), srvNotes)
 	}
-	if started != (first >= 0) {
-		fail("maybeWebseed returned %v, the piece has %d absent blocks", started, nb-len(p.pre))
-	}
-	blocksPerPiece := int(l.ps / blk)
-	if !started {
+	lab := l.labels()
+	sig := ""
+	nontrivial := false
+	reqBase := 0
+	complete := false
+	for round := 0; round < max(p.rounds, 1) && !complete; round++ {
+		if round > 0 {
+			hist = append(hist, fmt.Sprintf("---- round %d", round+1))
+			lab = append(lab, "fetch-after-fetch")
+		}
+		// the model's hole: first absent block, up to the next present one
+		present := make([]bool, nb)
+		_, bm0 := tr.Pieces.PieceBitmap(uint32(index))
+		for b := 0; b < nb; b++ {
+			present[b] = bm0.Get(b)
+		}
+		first := -1
+		for b := 0; b < nb; b++ {
+			if !present[b] {
+				first = b
+				break
+			}
+		}
+		end := first
+		if first >= 0 {
+			for end = first + 1; end < nb && !present[end]; end++ {
+			}
+		}
+		ho, hl, want = 0, 0, nil
+		if first >= 0 {
+			ho = int64(first) * blk
+			hl = min(int64(end)*blk, pl) - ho
+		}
+		holeLen := hl
+
+		// ---- the call
+		ready := ws.Ready(p.idle)
+		if round == 0 && !ready {
+			t.Fatalf("harness: a fresh web seed is not ready")
+		}
+		if !ready {
+			lab = append(lab, "seed-backs-off")
+		}
+		started := tor.VerifMaybeWebseed(ctx, tr, uint32(index), p.idle)
+		if started != (first >= 0 && ready) {
+			fail("maybeWebseed returned %v, the piece has %d absent blocks, the seed is ready: %v", started, nb-bm0.Count(), ready)
+		}
+		if !started {
+			for k, v := range tor.VerifInFlight(tr) {
+				if v != 0 {
+					fail("no fetch was started but block %d is marked in flight", k)
+				}
+			}
+			if round == 0 {
+				stats.Case("d|nofetch", false, append(l.labels(), "no-hole")...)
+				return
+			}
+			break
+		}
+		// reservation: the blocks of the hole; of a hole of more than 1 MiB, a
+		// part of at least 1 MiB that starts where the hole starts (how much
+		// more depends on the seed's measured rate)
+		fl := tor.VerifInFlight(tr)
+		nres := 0
+		for k, v := range fl {
+			b := k - index*blocksPerPiece
+			if v > 1 || (v == 1 && (b < first || b >= end)) {
+				fail("after maybeWebseed block %d (block %d of piece %d) has in-flight count %d (hole is blocks %d..%d)", k, b, index, v, first, end-1)
+			}
+			if v == 1 {
+				nres++
+			}
+		}
+		for b := first; b < first+nres; b++ {
+			if fl[index*blocksPerPiece+b] != 1 {
+				fail("after maybeWebseed the %d reserved blocks are not the first blocks of the hole %d..%d: block %d is not reserved", nres, first, end-1, b)
+			}
+		}
+		if holeLen <= 1<<20 && nres != end-first {
+			fail("after maybeWebseed %d blocks are reserved, the hole is blocks %d..%d", nres, first, end-1)
+		}
+		if holeLen > 1<<20 {
+			lab = append(lab, "hole-over-1MiB")
+			if nres < 64 {
+				fail("after maybeWebseed %d blocks are reserved of a hole of %d blocks", nres, end-first)
+			}
+			if nres < end-first {
+				lab = append(lab, "fetch-shorter-than-hole")
+			}
+			if nres > 64 && nres < end-first {
+				lab = append(lab, "fetch-sized-by-rate")
+			}
+		}
+		// from here on the range is what was reserved: that is what the fetch must
+		// account for, byte for byte
+		end = first + nres
+		hl = min(int64(end)*blk, pl) - ho
+		want = l.chunksOf(pieceStart+ho, hl)
+
+		// ---- play the event loop until the fetch goroutine has ended
+		at := ho
+		sawDrop, sawComplete := false, false
+		handle := func(e peer.TorEvent) {
+			switch e := e.(type) {
+			case peer.TorData:
+				hist = append(hist, fmt.Sprintf("TorData{piece %d begin %d length %d complete %v}", e.Index, e.Begin, e.Length, e.Complete))
+				if sawDrop || int(e.Index) != index || int64(e.Begin) != at || e.Length == 0 || int64(e.Begin)+int64(e.Length) > ho+hl {
+					fail("the event does not continue the range at %d (range [%d,%d))", at, ho, ho+hl)
+				}
+				at += int64(e.Length)
+				sawComplete = sawComplete || e.Complete
+			case peer.TorDrop:
+				hist = append(hist, fmt.Sprintf("TorDrop{piece %d begin %d length %d}", e.Index, e.Begin, e.Length))
+				if sawDrop || int(e.Index) != index || int64(e.Begin) != at || e.Length == 0 || int64(e.Begin)+int64(e.Length) != ho+hl {
+					fail("the drop does not cover the rest [%d,%d) of the range", at, ho+hl)
+				}
+				at += int64(e.Length)
+				sawDrop = true
+			case peer.TorHave:
+				hist = append(hist, fmt.Sprintf("TorHave{%d %v}", e.Index, e.Have))
+			default:
+				hist = append(hist, fmt.Sprintf("%T%+v", e, e))
+			}
+			if err := tor.VerifHandleEvent(ctx, tr, e); err != nil {
+				fail("handleEvent: %v", err)
+			}
+		}
+		deadline := time.NewTimer(120 * time.Second)
+		for ended := false; !ended; {
+			select {
+			case e := <-tr.Event:
+				handle(e)
+			case point := <-exited:
+				hist = append(hist, "fetch goroutine ended ("+point+")")
+				ended = true
+			case <-deadline.C:
+				t.Skip("inconclusive: the fetch did not end within 120 s")
+			}
+		}
+		deadline.Stop()
+		for drained := false; !drained; {
+			select {
+			case e := <-tr.Event:
+				handle(e)
+			default:
+				drained = true
+			}
+		}
+		if at != ho+hl {
+			fail("the fetch has ended; its events account for [%d,%d) of the reserved range [%d,%d): blocks %d..%d stay reserved for ever", ho, at, ho, ho+hl, at/blk, end-1)
+		}
+		if ws.Count() != 0 {
+			fail("the fetch has ended and the seed's Count() is %d", ws.Count())
+		}
+		// a completed piece is verified by the real finalisePiece goroutine
+		if sawComplete {
+			for i := 0; !tr.Pieces.Complete(uint32(index)) && !tr.Pieces.PieceEmpty(uint32(index)); i++ {
+				if i > 60000 {
+					t.Skip("inconclusive: piece verification did not end within 60 s")
+				}
+				time.Sleep(time.Millisecond)
+			}
+		}
+		// late events (TorHave) are handled too
+		for drained := false; !drained; {
+			select {
+			case e := <-tr.Event:
+				hist = append(hist, fmt.Sprintf("%T%+v", e, e))
+				switch e.(type) {
+				case peer.TorData, peer.TorDrop:
+					fail("event after the range was accounted for")
+				}
+				tor.VerifHandleEvent(ctx, tr, e)
+			default:
+				drained = true
+			}
+		}
+
+		// ---- every reserved block is released
 		for k, v := range tor.VerifInFlight(tr) {
 			if v != 0 {
-				fail("no fetch was started but block %d is marked in flight", k)
+				b := k - index*blocksPerPiece
+				fail("the fetch has ended and its events were handled, but block %d (block %d of piece %d, %d bytes long) still has in-flight count %d: it is never requested again",
+					k, b, index, l.blockLen(index, b), v)
 			}
 		}
-		stats.Case("d|nofetch", false, append(l.labels(), "no-hole")...)
-		return
-	}
-	// reservation: exactly the blocks of the hole
-	fl := tor.VerifInFlight(tr)
-	for k, v := range fl {
-		b := k - index*blocksPerPiece
-		wantV := uint8(0)
-		if b >= first && b < end {
-			wantV = 1
-		}
-		if v != wantV {
-			fail("after maybeWebseed block %d (block %d of piece %d) has in-flight count %d, want %d (hole is blocks %d..%d)", k, b, index, v, wantV, first, end-1)
-		}
-	}
 
-	// ---- play the event loop until the fetch goroutine has ended
-	at := ho
-	sawDrop, sawComplete := false, false
-	handle := func(e peer.TorEvent) {
-		switch e := e.(type) {
-		case peer.TorData:
-			hist = append(hist, fmt.Sprintf("TorData{piece %d begin %d length %d complete %v}", e.Index, e.Begin, e.Length, e.Complete))
-			if sawDrop || int(e.Index) != index || int64(e.Begin) != at || e.Length == 0 || int64(e.Begin)+int64(e.Length) > ho+hl {
-				fail("the event does not continue the range at %d (range [%d,%d))", at, ho, ho+hl)
+		// ---- the server saw the right files with the right ranges
+		all := srv.requests()
+		reqs := all[reqBase:]
+		faulty := false
+		for i := range reqs {
+			if _, ok := p.faults[reqBase+i]; ok {
+				faulty = true
 			}
-			at += int64(e.Length)
-			sawComplete = sawComplete || e.Complete
-		case peer.TorDrop:
-			hist = append(hist, fmt.Sprintf("TorDrop{piece %d begin %d length %d}", e.Index, e.Begin, e.Length))
-			if sawDrop || int(e.Index) != index || int64(e.Begin) != at || e.Length == 0 || int64(e.Begin)+int64(e.Length) != ho+hl {
-				fail("the drop does not cover the rest [%d,%d) of the range", at, ho+hl)
+		}
+		if p.hoffman {
+			if len(reqs) < 1 {
+				fail("no request reached the Hoffman seed")
 			}
-			at += int64(e.Length)
-			sawDrop = true
-		case peer.TorHave:
-			hist = append(hist, fmt.Sprintf("TorHave{%d %v}", e.Index, e.Have))
-		default:
-			hist = append(hist, fmt.Sprintf("%T%+v", e, e))
-		}
-		if err := tor.VerifHandleEvent(ctx, tr, e); err != nil {
-			fail("handleEvent: %v", err)
-		}
-	}
-	deadline := time.NewTimer(120 * time.Second)
-	defer deadline.Stop()
-	for ended := false; !ended; {
-		select {
-		case e := <-tr.Event:
-			handle(e)
-		case point := <-exited:
-			hist = append(hist, "fetch goroutine ended ("+point+")")
-			ended = true
-		case <-deadline.C:
-			t.Skip("inconclusive: the fetch did not end within 120 s")
-		}
-	}
-	for drained := false; !drained; {
-		select {
-		case e := <-tr.Event:
-			handle(e)
-		default:
-			drained = true
-		}
-	}
-	if at != ho+hl {
-		fail("the fetch has ended; its events account for [%d,%d) of the reserved range [%d,%d): blocks %d..%d stay reserved for ever", ho, at, ho, ho+hl, at/blk, end-1)
-	}
-	if ws.Count() != 0 {
-		fail("the fetch has ended and the seed's Count() is %d", ws.Count())
-	}
-	// a completed piece is verified by the real finalisePiece goroutine
-	_, bm := tr.Pieces.PieceBitmap(uint32(index))
-	if sawComplete {
-		for i := 0; !tr.Pieces.Complete(uint32(index)) && !tr.Pieces.PieceEmpty(uint32(index)); i++ {
-			if i > 60000 {
-				t.Skip("inconclusive: piece verification did not end within 60 s")
+			q, _ := nurl.ParseQuery(reqs[0].rawQuery)
+			wantR1, wantR2 := fmt.Sprintf("%d-%d", ho, ho+hl-1), fmt.Sprintf("%d-%d", ho, ho+hl)
+			if q.Get("piece") != strconv.Itoa(index) || q.Get("info_hash") != string(tr.Hash) || (q.Get("ranges") != wantR1 && q.Get("ranges") != wantR2) {
+				fail("Hoffman request %q, want piece=%d ranges=%s", reqs[0].rawQuery, index, wantR1)
 			}
-			time.Sleep(time.Millisecond)
-		}
-	}
-	// late events (TorHave) are handled too
-	for drained := false; !drained; {
-		select {
-		case e := <-tr.Event:
-			hist = append(hist, fmt.Sprintf("%T%+v", e, e))
-			switch e.(type) {
-			case peer.TorData, peer.TorDrop:
-				fail("event after the range was accounted for")
+		} else {
+			var wantReqs []mchunk
+			for _, c := range want {
+				if !c.pad {
+					wantReqs = append(wantReqs, c)
+				}
 			}
-			tor.VerifHandleEvent(ctx, tr, e)
-		default:
-			drained = true
+			k := 0
+			for i, r := range reqs {
+				if i > 0 && r == reqs[i-1] && faulty {
+					continue // the HTTP transport retried on a fresh connection
+				}
+				if k >= len(wantReqs) {
+					fail("request %d (%v) is beyond the %d file runs of the range", reqBase+i, r, len(wantReqs))
+				}
+				c := wantReqs[k]
+				wp := "/pub/" + l.name
+				if c.file >= 0 {
+					wp += "/" + strings.Join(c.path, "/")
+				}
+				wr := fmt.Sprintf("bytes=%d-%d", c.off, c.off+c.length-1)
+				if r.path != wp || r.rng != wr {
+					fail("request %d is %v; run %d of the range is file %q bytes %d-%d", reqBase+i, r, k, wp, c.off, c.off+c.length-1)
+				}
+				k++
+			}
+			if !faulty && k != len(wantReqs) {
+				fail("the server answered every request correctly, yet only %d of the %d file runs were requested", k, len(wantReqs))
+			}
 		}
-	}
 
-	// ---- every reserved block is released
-	for k, v := range tor.VerifInFlight(tr) {
-		if v != 0 {
-			b := k - index*blocksPerPiece
-			fail("the fetch has ended and its events were handled, but block %d (block %d of piece %d, %d bytes long) still has in-flight count %d: it is never requested again",
-				k, b, index, l.blockLen(index, b), v)
+		// ---- what an honest answer delivers is stored
+		honestFull := !faulty && !(p.hoffman && p.hInclusive && p.framing == "cl")
+		complete = tr.Pieces.Complete(uint32(index))
+		if sawComplete && !complete {
+			fail("all blocks of the piece arrived but it failed verification: bytes were stored at a wrong place")
 		}
-	}
+		if !complete {
+			_, bm := tr.Pieces.PieceBitmap(uint32(index))
+			for b := first; b < end; b++ {
+				if honestFull && !bm.Get(b) {
+					fail("the server answered every request correctly, yet block %d of the range was not stored", b)
+				}
+			}
+		}
 
-	// ---- the server saw the right files with the right ranges
-	reqs := srv.requests()
-	faulty := false
-	for i := range reqs {
-		if _, ok := p.faults[i]; ok {
-			faulty = true
-		}
-	}
-	if p.hoffman {
-		if len(reqs) < 1 {
-			fail("no request reached the Hoffman seed")
-		}
-		q, _ := nurl.ParseQuery(reqs[0].rawQuery)
-		wantR1, wantR2 := fmt.Sprintf("%d-%d", ho, ho+hl-1), fmt.Sprintf("%d-%d", ho, ho+hl)
-		if q.Get("piece") != strconv.Itoa(index) || q.Get("info_hash") != string(tr.Hash) || (q.Get("ranges") != wantR1 && q.Get("ranges") != wantR2) {
-			fail("Hoffman request %q, want piece=%d ranges=%s", reqs[0].rawQuery, index, wantR1)
-		}
-	} else {
-		var wantReqs []mchunk
+		// ---- coverage
+		pads, small := 0, 0
 		for _, c := range want {
-			if !c.pad {
-				wantReqs = append(wantReqs, c)
+			if c.pad {
+				pads++
+			}
+			if c.file >= 0 && c.flength < blk {
+				small++
 			}
 		}
-		k := 0
-		for i, r := range reqs {
-			if i > 0 && r == reqs[i-1] && faulty {
-				continue // the HTTP transport retried on a fresh connection
-			}
-			if k >= len(wantReqs) {
-				fail("request %d (%v) is beyond the %d file runs of the range", i, r, len(wantReqs))
-			}
-			c := wantReqs[k]
-			wp := "/pub/" + l.name
-			if c.file >= 0 {
-				wp += "/" + strings.Join(c.path, "/")
-			}
-			wr := fmt.Sprintf("bytes=%d-%d", c.off, c.off+c.length-1)
-			if r.path != wp || r.rng != wr {
-				fail("request %d is %v; run %d of the range is file %q bytes %d-%d", i, r, k, wp, c.off, c.off+c.length-1)
-			}
-			k++
+		if pads > 0 {
+			lab = append(lab, "padding-file-in-range")
 		}
-		if !faulty && k != len(wantReqs) {
-			fail("the server answered every request correctly, yet only %d of the %d file runs were requested", k, len(wantReqs))
+		if small > 0 {
+			lab = append(lab, "file-shorter-than-block")
 		}
+		if len(want) >= 2 {
+			lab = append(lab, "range-spans-files")
+			nontrivial = true
+		}
+		if pieceStart+ho+hl == l.total && l.total%blk != 0 {
+			lab = append(lab, "range-to-short-last-block")
+		}
+		if sawDrop {
+			lab = append(lab, "ends-with-drop")
+		}
+		if sawComplete {
+			lab = append(lab, "piece-completed-by-fetch")
+		}
+		var fk []string
+		for i := range reqs {
+			if f, ok := p.faults[reqBase+i]; ok {
+				lab = append(lab, "fault-"+f.kind)
+				fk = append(fk, f.kind)
+				if (f.kind == "overlong" || f.kind == "cl-overlong") && len(want) >= 2 {
+					lab = append(lab, "chunked-overlong")
+				}
+			}
+		}
+		if round < 2 {
+			sig += fmt.Sprintf("|%d|%d|%d|%d|%v|%v", min(len(want), 5), pads, min(first, 9), min(end-first, 9), fk, sawDrop)
+		}
+		reqBase = len(all)
 	}
 
 	// ---- every block present holds the right bytes
-	honestFull := !faulty && !(p.hoffman && p.hInclusive && p.framing == "cl")
-	if sawComplete || tr.Pieces.Complete(uint32(index)) {
-		if !tr.Pieces.Complete(uint32(index)) {
-			fail("all blocks of the piece arrived but it failed verification: bytes were stored at a wrong place")
-		}
-	} else {
-		_, bm = tr.Pieces.PieceBitmap(uint32(index))
-		for b := first; b < end; b++ {
-			if honestFull && !bm.Get(b) {
-				fail("the server answered every request correctly, yet block %d of the hole was not stored", b)
-			}
-		}
+	if !tr.Pieces.Complete(uint32(index)) {
+		_, bm := tr.Pieces.PieceBitmap(uint32(index))
 		for b := 0; b < nb; b++ {
 			if !bm.Get(b) {
 				d := content[pieceStart+int64(b)*blk : pieceStart+int64(b)*blk+l.blockLen(index, b)]
@@ -493,59 +604,22 @@ func fetchCase(t tb, p *fetchPlan) {
 		fail("harness: verified piece differs from the content (n=%d err=%v)", n, err)
 	}
 
-	// ---- coverage
-	lab := l.labels()
-	pads, small, real := 0, 0, 0
-	for _, c := range want {
-		if c.pad {
-			pads++
-		} else {
-			real++
-		}
-		if c.file >= 0 && c.flength < blk {
-			small++
-		}
-	}
-	if pads > 0 {
-		lab = append(lab, "padding-file-in-range")
-	}
-	if small > 0 {
-		lab = append(lab, "file-shorter-than-block")
-	}
-	if len(want) >= 2 {
-		lab = append(lab, "range-spans-files")
-	}
-	if pieceStart+ho+hl == l.total && l.total%blk != 0 {
-		lab = append(lab, "range-to-short-last-block")
-	}
 	if p.hoffman {
 		lab = append(lab, "hoffman-seed")
 	} else {
 		lab = append(lab, "getright-seed")
 	}
-	if sawDrop {
-		lab = append(lab, "ends-with-drop")
-	}
-	if sawComplete {
-		lab = append(lab, "piece-completed-by-fetch")
-	}
-	var fk []string
-	for i := range reqs {
-		if f, ok := p.faults[i]; ok {
-			lab = append(lab, "fault-"+f.kind)
-			fk = append(fk, f.kind)
-			if (f.kind == "overlong" || f.kind == "cl-overlong") && len(want) >= 2 {
-				lab = append(lab, "chunked-overlong")
-			}
-		}
-	}
 	if len(p.pre) > 0 {
 		lab = append(lab, "pre-filled-blocks")
 	}
-	stats.Case(fmt.Sprintf("d|%v|%d|%d|%d|%d|%d|%v|%v", p.hoffman, l.ps/blk, min(len(want), 5), pads, first, end-first, fk, sawDrop), len(want) >= 2, lab...)
-	if len(want) >= 2 && stats.WantSample("d-multi-file-range") {
-		stats.Sample("d-multi-file-range", append([]string{p.String()}, hist...))
+	if l.huge {
+		lab = append(lab, "piece-of-1MiB-or-more")
+	}
+	sort.Strings(lab)
+	lab = slices.Compact(lab)
+	stats.Case(fmt.Sprintf("d|%v|%d%s", p.hoffman, l.ps/blk, sig), nontrivial, lab...)
+	if nontrivial && stats.WantSample("d-multi-file-range") {
+		stats.Sample("d-multi-file-range", append([]string{p.String()}, hist[:min(len(hist), 40)]...))
 	}
 }
-
 var _ = webseed.New
